@@ -261,6 +261,7 @@ class BranchReal(SymReal):
   def __ge__(self, o): return SymBool(self.t >= self._lift(o))
   def __eq__(self, o): return SymBool(self.t == self._lift(o))
   def __ne__(self, o): return SymBool(self.t != self._lift(o))
+  def __bool__(self): return BranchReal.explorer.decide(self.t != 0)      # truthiness (e.g. np.all on an object array) is the decision x != 0
   __hash__ = None
 
 
@@ -303,11 +304,6 @@ class SymInt:
   def __ge__(self, o): return self._cmp(o, lambda a, b: a >= b)
   def __gt__(self, o): return self._cmp(o, lambda a, b: a > b)
   def __hash__(self): return hash(self.t)
-
-
-class SymBool:
-  def __init__(self, t): self.t = t
-  def __bool__(self): raise TypeError('branching on a symbolic comparison')
 
 
 def _symreal_ceil(self):
